@@ -158,6 +158,7 @@ func main() {
 			instrumentPackage(m.label, m.dir, p)
 		}
 	}
+	finishInitAudit()
 	if len(fatal) > 0 {
 		for _, f := range fatal {
 			fmt.Fprintln(os.Stderr, "instr: unsupported:", f)
@@ -192,7 +193,133 @@ func (fc *fileCtx) replace(from, to token.Pos, s string) {
 	fc.edits = append(fc.edits, edit{fc.off(from), fc.off(to), s, 0})
 }
 
+// auditInitGoroutines: a goroutine started by a package initialiser (an init function or the
+// initialiser of a package variable, directly or through functions of the package it calls)
+// exists before any simulation starts and is not a task of any scheduler: what it does - wait
+// on a channel for work, say - is outside the simulator's control.
+func auditInitGoroutines(label, dir string, p *packages.Package) {
+	info := p.TypesInfo
+	hasGo := map[*types.Func]bool{}
+	callees := map[*types.Func][]*types.Func{}
+	var inits []ast.Node
+	scan := func(body ast.Node) (goStmt bool, calls []*types.Func) {
+		ast.Inspect(body, func(n ast.Node) bool {
+			switch x := n.(type) {
+			case *ast.GoStmt:
+				goStmt = true
+			case *ast.CallExpr:
+				var f *types.Func
+				switch fn := x.Fun.(type) {
+				case *ast.Ident:
+					f, _ = info.Uses[fn].(*types.Func)
+				case *ast.SelectorExpr:
+					if s := info.Selections[fn]; s != nil {
+						f, _ = s.Obj().(*types.Func)
+					} else {
+						f, _ = info.Uses[fn.Sel].(*types.Func)
+					}
+				}
+				if f != nil && f.Pkg() != nil && instrPkg[f.Pkg().Path()] {
+					calls = append(calls, f.Origin())
+				}
+			}
+			return true
+		})
+		return
+	}
+	for _, f := range p.Syntax {
+		for _, d := range f.Decls {
+			switch x := d.(type) {
+			case *ast.FuncDecl:
+				if x.Body == nil {
+					continue
+				}
+				if x.Recv == nil && x.Name.Name == "init" {
+					inits = append(inits, x.Body)
+					continue
+				}
+				if fn, ok := info.Defs[x.Name].(*types.Func); ok {
+					g, c := scan(x.Body)
+					hasGo[fn], callees[fn] = g, c
+				}
+			case *ast.GenDecl:
+				if x.Tok == token.VAR {
+					for _, sp := range x.Specs {
+						if vs, ok := sp.(*ast.ValueSpec); ok {
+							for _, v := range vs.Values {
+								inits = append(inits, v)
+							}
+						}
+					}
+				}
+			}
+		}
+	}
+	initGoFuncs = append(initGoFuncs, initScan{label: label, dir: dir, p: p, inits: inits, scan: scan})
+	for fn, g := range hasGo {
+		allHasGo[fn] = g
+	}
+	for fn, c := range callees {
+		allCallees[fn] = c
+	}
+}
+
+type initScan struct {
+	label, dir string
+	p          *packages.Package
+	inits      []ast.Node
+	scan       func(ast.Node) (bool, []*types.Func)
+}
+
+var initGoFuncs []initScan
+var allHasGo = map[*types.Func]bool{}
+var allCallees = map[*types.Func][]*types.Func{}
+
+// finishInitAudit runs after all packages were scanned (initialisers may call into other
+// packages of the library).
+func finishInitAudit() {
+	memo := map[*types.Func]int{}
+	var starts func(f *types.Func) bool
+	starts = func(f *types.Func) bool {
+		switch memo[f] {
+		case 1, 3:
+			return false
+		case 2:
+			return true
+		}
+		memo[f] = 3
+		r := allHasGo[f]
+		for _, c := range allCallees[f] {
+			if r {
+				break
+			}
+			r = starts(c)
+		}
+		memo[f] = 1
+		if r {
+			memo[f] = 2
+		}
+		return r
+	}
+	for _, is := range initGoFuncs {
+		for _, body := range is.inits {
+			g, calls := is.scan(body)
+			for _, c := range calls {
+				if starts(c) {
+					g = true
+				}
+			}
+			if g {
+				pos := is.p.Fset.Position(body.Pos())
+				rel, _ := filepath.Rel(is.dir, pos.Filename)
+				inv.Unsim = append(inv.Unsim, Audit{"goroutine started by a package initialiser", is.label + "/" + rel, pos.Line})
+			}
+		}
+	}
+}
+
 func instrumentPackage(label, dir string, p *packages.Package) {
+	auditInitGoroutines(label, dir, p)
 	// exported API listing
 	scope := p.Types.Scope()
 	for _, n := range scope.Names() {
